@@ -168,6 +168,7 @@ package ast
 //@   site taskNameWithNamespace#2 requires arg0 == cmd.Task && arg1 == include.Namespace     -- so do task: calls       [C08]
 //@   site taskNameWithNamespace#3 requires arg1 == include.Namespace                         -- and aliases             [C08]
 //@   site taskNameWithNamespace#4 requires arg0 == name && arg1 == include.Namespace         -- <namespace>:<task>      [C08]
+//@   site taskNameWithNamespace#5 requires arg0 == v.Task      -- <include alias>:<task>: the task's OWN name, not yet prefixed   [C15,C08]
 //@   site (*Vars).Merge#1 requires arg0 == task.IncludeVars && arg1 == include.Vars && arg0 != nil                      [C08,C10]
 //@   site (*Vars).Merge#1 ghost varsDone := true
 //@   site (*Vars).DeepCopy#1 requires arg0 == includedTaskfileVars                                                      [C08,C10]
